@@ -7,7 +7,7 @@ WT=${MUT_WT:-/tmp/wt-mut}
 git -C $WT checkout -q -- . && git -C $WT clean -fdq
 git -C $WT apply "$P" || { echo "patch does not apply"; exit 3; }
 (cd $WT && GOPROXY=off GOSUMDB=off GOTOOLCHAIN=local go build ./... ) || { echo "does not build"; git -C $WT checkout -q -- .; exit 3; }
-VERIF_REPO=$WT /verif/bin/simcheck $ID -tier quick "$@" 2>&1 | grep -v "^  \|^github.com\|^runtime\|^$\|^\s" | cut -c1-220 | head -14
+VERIF_EVIDENCE_DIR=/tmp/mut-evidence VERIF_REPLAY_DIR=/tmp/mut-replays VERIF_REPO=$WT /verif/bin/simcheck $ID -tier quick "$@" 2>&1 | grep -v "^  \|^github.com\|^runtime\|^$\|^\s" | cut -c1-220 | head -14
 rc=${PIPESTATUS[0]}
 git -C $WT checkout -q -- . ; git -C $WT clean -fdq
 echo "exit=$rc"
